@@ -280,7 +280,27 @@ func runC13(c *C13Case) C13Obs {
 			if p := catchPanic(func() { err3 = openapi3filter.ValidateRequest(context.Background(), in) }); p == nil && err3 == nil {
 				q4, h4, ck4, b4, _ := snapshot(in.Request)
 				if !sameMulti(q3, q4) || !sameMulti(h3, h4) || fmt.Sprint(ck3) != fmt.Sprint(ck4) || !sameJSONText(b3, b4) {
-					o.Violations = append(o.Violations, "validation-with-the-same-input-object-changes-request")
+					// the recorded finding is one cause: the decoded query kept by the input object is reused, so the
+					// default of an absent query parameter is appended once more; anything else is another defect
+					cause := ""
+					if sameMulti(h3, h4) && fmt.Sprint(ck3) == fmt.Sprint(ck4) && sameJSONText(b3, b4) && len(q3) == len(q4) {
+						cause = ":query-default-appended-again"
+						for k, v4 := range q4 {
+							v3 := q3[k]
+							if len(v4) == len(v3) {
+								if fmt.Sprint(v3) != fmt.Sprint(v4) {
+									cause = ""
+								}
+								continue
+							}
+							// what was there, followed once more by the values the default stands for (its tail)
+							extra := len(v4) - len(v3)
+							if extra < 0 || extra > len(v3) || fmt.Sprint(v4[:len(v3)]) != fmt.Sprint(v3) || fmt.Sprint(v4[len(v3):]) != fmt.Sprint(v3[len(v3)-extra:]) {
+								cause = ""
+							}
+						}
+					}
+					o.Violations = append(o.Violations, "validation-with-the-same-input-object-changes-request"+cause)
 				}
 			}
 		}
